@@ -6,8 +6,8 @@
    C18_base64_nonempty), which gives the hypothesis-free C18_roundtrip_concrete. *)
 From Coq Require Import Permutation.
 From Oras Require Import Base.Prelude Base.FlatFS Generated.GC18
-  Model.Utf8 Model.Json Model.Base64 Model.CredFile Model.CredSave Model.CredConc
-  Proofs.Base64 Proofs.Json Proofs.CredFile Proofs.CredSave Proofs.CredConc Proofs.CredJson.
+  Model.Utf8 Model.Json Model.Base64 Model.CredFile Model.JsonDoc Model.CredSave Model.CredConc
+  Proofs.Base64 Proofs.Json Proofs.CredFile Proofs.CredSave Proofs.CredConc Proofs.CredJson Proofs.JsonDoc.
 
 (* Put then Get -- after any further history that does not Put/Delete the same
    address -- returns exactly the stored credential, whatever order Go's map
@@ -495,6 +495,23 @@ Theorem C18_entry_bytes_roundtrip :
     cred_of_bytes b64_decode (entry_bytes b64_encode c) = RCred c.
 Proof. exact entry_bytes_roundtrip. Qed.
 Print Assumptions C18_entry_bytes_roundtrip.
+
+(* the BYTES saveFile writes (Model/JsonDoc.v render_file = json.MarshalIndent of the
+   content map, compared byte for byte with the real file on every run) do not
+   depend on Go's map iteration order: any order of the content map and of the
+   auths map gives the same file *)
+Theorem C18_file_bytes_map_order :
+  forall tops ents d d',
+    NoDup (map fst d) -> Permutation d d' -> render_file tops ents d = render_file tops ents d'.
+Proof. exact render_file_order. Qed.
+Print Assumptions C18_file_bytes_map_order.
+
+Theorem C18_auths_bytes_map_order :
+  forall tops ents k l l',
+    NoDup (map fst l) -> Permutation l l' ->
+    render_top tops ents (k, TAuths l) = render_top tops ents (k, TAuths l').
+Proof. exact render_auths_order. Qed.
+Print Assumptions C18_auths_bytes_map_order.
 
 Theorem C18_invalid_utf8_refuted :
   exists s, valid_utf8 s = false /\ json_unquote (json_quote s) <> Some s.
